@@ -587,7 +587,7 @@ func runAddr(o *Opts) {
 		sink.Add(c)
 	}
 	// ---- values derived through the API (C06): resolve, select a version, combine with a sub-path ----
-	relPool := []string{"./", "../", "./a", "../a", "./a/b", "../..", "./a@b", "./x/a@1.2.3", "./a b", "./a?b", "./a#b", "./a%41", "./ü", "../../..", "./a;b", "./a!b", "./@", "./a@"}
+	relPool := []string{"./", "../", "./a", "../a", "./a/b", "../..", "./.hidden", "../.shared/vpc", "../../.shared/vpc", "./..x", "./a@b", "./x/a@1.2.3", "./a b", "./a?b", "./a#b", "./a%41", "./ü", "../../..", "./a;b", "./a!b", "./@", "./a@"}
 	verPool := []string{"1.0.0", "0.1.2-beta.1", "2.0.0+meta", "1.0.0-a+b", "0.0.0"}
 	roundTrip := func(c *Case, what string, v interface{}) {
 		var pn interface{}
